@@ -39,6 +39,8 @@ pub struct Direct {
     pub stop: CancellationToken,
     /// instant at which `Listener::listen` returned
     pub returned: Arc<Mutex<Option<Instant>>>,
+    /// hook H3: connections the listener has taken from its accept queue
+    pub accepted: Arc<std::sync::atomic::AtomicUsize>,
 }
 
 impl Direct {
@@ -83,6 +85,7 @@ pub async fn start_direct(spec: DirectSpec) -> Direct {
     let rec = Rec::new(default_adapters(&spec));
     let stop = CancellationToken::new();
     let returned = Arc::new(Mutex::new(None));
+    let (acc_tx, acc_rx) = std::sync::mpsc::channel();
     {
         let rec = rec.clone();
         let stop = stop.clone();
@@ -96,6 +99,7 @@ pub async fn start_direct(spec: DirectSpec) -> Direct {
                     .with_auth_secret(spec.secret.clone())
                     .with_rate_limiter(spec.limiter.map(|(d, l)| RateLimiter::<IpAddr>::new(d, l)))
                     .with_proxy_protocol(spec.proxy.map(|(v1, v2)| ParseConfig { include_tlvs: false, allow_v1: v1, allow_v2: v2 }));
+                let _ = acc_tx.send(listener.verif_accepted_counter());
                 let res = listener.listen(addr, stop).await;
                 *returned.lock().unwrap_or_else(|e| e.into_inner()) = Some(Instant::now());
                 if let Err(e) = res {
@@ -104,6 +108,7 @@ pub async fn start_direct(spec: DirectSpec) -> Direct {
             });
         });
     }
+    let accepted = acc_rx.recv_timeout(Duration::from_secs(10)).unwrap_or_default();
     tcp::wait_listening(addr, Duration::from_secs(10)).await;
-    Direct { addr, rec, stop, returned }
+    Direct { addr, rec, stop, returned, accepted }
 }
